@@ -66,6 +66,9 @@ def gen(r, cls):
     elif cls == "states":
         n = int(r.integers(0, 4))
         lead = [None, (), (2,)][r.integers(3)]
+        flat3 = bool(r.random() < 0.3)        # focus: the flat [F0+, F0-, Z0] form of a single state
+        if flat3:
+            n, lead = 0, None
         fp = r.normal(size=2 * n + 1) + 1j * r.normal(size=2 * n + 1)
         z = r.normal(size=2 * n + 1) + 1j * r.normal(size=2 * n + 1)
         z = 0.5 * (z + z[::-1].conj())
@@ -73,6 +76,8 @@ def gen(r, cls):
         how = "valid"
         if not valid:
             how = ["ncol", "even", "fsym", "zsym", "len1d"][r.integers(5)]
+            if flat3:
+                how = ["fsym", "zsym"][r.integers(2)]
             if how == "ncol":
                 st = st[:, :2] if r.random() < 0.5 else np.concatenate([st, st[:, :1]], axis=1)
             elif how == "even":
@@ -88,7 +93,9 @@ def gen(r, cls):
                 lead = None
         if lead is not None and st.ndim == 2:
             st = np.broadcast_to(st, lead + st.shape).copy()
-        d.update(states=st, how=how)
+        elif lead is None and st.shape == (1, 3) and how in ("valid", "fsym", "zsym") and (flat3 or r.random() < 0.6):
+            st = st.reshape(3)          # the flat [F0+, F0-, Z0] form
+        d.update(states=st, how=how, route=["StateMatrix", "simulate"][r.integers(2)])
     elif cls == "scalar_coeff":
         lead = [(), (1,), (2,)][r.integers(3)]
         a = r.normal(size=lead) + 1j * r.normal(size=lead)
@@ -248,7 +255,10 @@ def run_real(d, epg):
                         op(epg.T(30, 0)(epg.StateMatrix(kgrid=0.1)))
                     op(epg.T(30, 0)(sm))
             elif cls == "states":
-                epg.StateMatrix(d["states"])
+                if d.get("route") == "simulate":
+                    epg.simulate([epg.T(30, 0), epg.ADC], init=d["states"])
+                else:
+                    epg.StateMatrix(d["states"])
             elif cls == "scalar_coeff":
                 opscalar.ScalarOp(d["arr"])
             elif cls == "matrix_coeff":
